@@ -98,7 +98,7 @@ def features (vg : VG) : String :=
 def codesStr (l : List Nat) : String := ",".intercalate (l.map toString)
 
 /-- compare one flag setting -/
-def checkValid (tag : String) (e0 mx : Int) (ref : Verdict) (v c l : String) : Option String :=
+def checkValid (tag : String) (e0 mx : Int) (ref : Verdict) (alts : List Verdict) (v c l : String) : Option String :=
   if ref.valid then
     if v == "1" then none else some s!"bad valid{tag} impl={v}/{c} ref=valid"
   else if v != "0" then some s!"bad valid{tag} impl={v} ref=invalid:{codesStr ref.codes}"
@@ -106,7 +106,13 @@ def checkValid (tag : String) (e0 mx : Int) (ref : Verdict) (v c l : String) : O
     let cOk := match c.toNat? with
       | some cn => ref.codes.contains cn || (ref.ambiguous && [2, 3, 4, 5, 6, 7].contains cn)
       | none => false
-    if !cOk then some s!"bad code{tag} impl={c} ref={codesStr ref.codes}"
+    -- not the first rule in IsValidOp's order, but a rule that IS broken, reported at a place where it is broken:
+    -- that is what the property asks for
+    let altOk := match c.toNat? with
+      | some cn => alts.any fun a => a.codes.contains cn && checkLoc e0 mx a l
+      | none => false
+    if !cOk && altOk then none
+    else if !cOk then some s!"bad code{tag} impl={c} ref={codesStr ref.codes}"
     else if ref.ambiguous && !(match c.toNat? with | some cn => ref.codes.contains cn | none => false) then none
     else if checkLoc e0 mx ref l then none
     else some s!"bad loc{tag} impl={l} code={c}"
@@ -130,8 +136,8 @@ def check (line : String) : String :=
         let r0 := validRef false vg
         let r1 := validRef true vg
         let checks : List (Option String) := [
-          checkValid "0" e0 mx r0 (get "v0") (get "c0") (get "l0"),
-          checkValid "1" e0 mx r1 (get "v1") (get "c1") (get "l1"),
+          checkValid "0" e0 mx r0 (allBroken false vg) (get "v0") (get "c0") (get "l0"),
+          checkValid "1" e0 mx r1 (allBroken true vg) (get "v1") (get "c1") (get "l1"),
           (if !allFinite then none else
             let s := b01 (simpleRef vg)
             if get "s" == s then none else some s!"bad simple impl={get "s"} ref={s}"),
